@@ -365,6 +365,25 @@ func checkC16(ctx *Ctx, c *Case) error {
 			}
 			ctx.Label("pack: custom file registry path")
 		}
+		// what Unpack hands out belongs to the caller: changing it must not show in
+		// a later Unpack of the same Any (through either path)
+		for _, prev := range []proto.Message{u1, u2} {
+			_ = safely(func() error {
+				scribble(prev.ProtoReflect(), 0)
+				wipe(prev.ProtoReflect(), 0)
+				prev.ProtoReflect().SetUnknown(protoreflect.RawFields{0xf8, 0x7f, 0x2a})
+				return nil
+			})
+		}
+		for i, tr := range []protoregistry.MessageTypeResolver{nil, &protoregistry.Types{}} {
+			again, err := anyutil.Unpack(a, nil, tr)
+			if err != nil {
+				return fmt.Errorf("a second Unpack of the same Any failed: %v", err)
+			}
+			if got := model.Canon(again.ProtoReflect(), model.Same); got != wantCanon {
+				return fmt.Errorf("Unpack (%s) of the same Any after the caller changed the earlier result differs from the packed message: %s", []string{"type registry", "file registry"}[i], diffStr(got, wantCanon))
+			}
+		}
 		u3, err := anyutil.Unpack(a, protoregistry.GlobalFiles, protoregistry.GlobalTypes)
 		if err != nil || model.Canon(u3.ProtoReflect(), model.Same) != wantCanon {
 			return fmt.Errorf("Unpack (explicit global resolvers) differs (err=%v)", err)
